@@ -117,6 +117,17 @@ CLAIMED = {
                 "statement's table. Zones with DST transitions are outside (stated).",
         "design_ref": "DESIGN.md §3 C12",
     },
+    "C13": {
+        "text": "Selection law: the real DateDataParser.get_date_data/_get_applicable_locales and LocaleDataLoader run "
+                "with per-locale applicability (raw and tz-stripped string) and per-locale parse outcome replaced by "
+                "symbolic bits; language sequences (<= 3 of a pool of 4 + an unknown code), DEFAULT_LANGUAGES (<= 2) and "
+                "use_given_order are enumerated by solver-driven forking; z3 shows per path that the reported locale is the "
+                "first one, in priority or given order, that is applicable and parses, that defaults are used only when "
+                "none of the selected succeeds, and that an unknown code raises ValueError. Relational tasks: "
+                "autodetection vs. re-parsing with the reported language on month-name templates with symbolic digits. "
+                "Load-history tasks: locale conventions after a symbolic order of first loads. The corpus is outside.",
+        "design_ref": "DESIGN.md §3 C13",
+    },
     "C14": {
         "text": "For ~46 strptime formats (numeric, English month/weekday names, 12h/24h, %f, two-digit years, partial and "
                 "year-less formats, formats whose rendering the sanitiser/heuristics would rewrite) and for localized "
